@@ -15,10 +15,16 @@ RULE = ("random cases: 1-3 instruments on two exchanges (3-5 exchange-assets), 0
         "(5) odd balances on both paths - negative totals, free > total, free < 0, zero, negative and far exchange times with equal / stale ones right after; "
         "(6) 0 instruments (empty summary) or 4-6 instruments; (7) negative quantity_abs_max / negative entry / both, the same record on two instruments. "
         "The corpus (corpus/C16/domain.ops, run first) holds one hand-made case per class plus negative-zero PnL tokens. "
+        "After the `d..` cases a separately seeded configuration-shape family (`cfg..`, N/8 cases; random and `d..` cases are unchanged by it) varies HOW the engine state is assembled (op `initb`): "
+        "four instrument layouts cycled (the alternating two-exchange layout of `init`; 1-6 instruments on three exchanges unevenly filled, the first instrument on the last exchange; 1-4 instruments on ONE exchange with chained cross pairs that share assets; "
+        "2-6 instruments that are the same pair on three exchanges), odd layouts with exchange 0 tracked but without an execution link, and in three of four cases INITIAL balances given to EngineStateBuilder::balances for a subset of the assets "
+        "(zero / negative totals, 10 % an asset twice, 3 % an unknown asset: the builder panics), followed by 0-25 (thorough 0-40) events on either path incl. snapshots at and BEFORE the engine start (stale behind the engine's guard against the initial balance, applied by the direct generator); "
+        "corpus/C16/cfg_initial_balances.ops and cfg_layouts.ops hold hand-made cases. "
         "A case is distinct by the SHA-1 of its op lines and non-trivial when the implementation's observation block changes at least once")
 ASSUMPTIONS = [
     "every closed position has price_entry_average * quantity_abs_max != 0 (the code panics otherwise: Decimal division by zero; harness and model both report `panic`)",
-    "events name an instrument / asset the engine was built with (the code panics otherwise)",
+    "events name an instrument / asset the engine was built with (the code panics otherwise); likewise an initial balance given to EngineStateBuilder::balances for an exchange-asset the instruments do not contain (AssetStates::asset_mut panics inside build(); harness and drivers report `panic`)",
+    "initial balances (EngineStateBuilder::balances) are modelled as what build() does with them: one snapshot per configured asset at time_engine_start through AssetState::update_from_balance, before the engine and any generator taken from its state exist (Driver/C16.lean initEvs; the HashMap of the builder keeps the last of two entries for one asset = the later of two snapshots at equal time). The starting state is otherwise empty: no public builder option sets open positions or orders; instrument kinds other than spot are not generated (no code under engine/ or statistic/ branches on the kind)",
     "extreme magnitudes are generated per instrument within ONE exact regime (digits of the running PnL and of the running sum of returns fit a 96-bit Decimal mantissa); mixing 1e-17 and 1e16 PnL on one instrument makes rust_decimal round the sums - the declared number-range boundary (rounding not modelled), not generated",
     "exact rational arithmetic: rust_decimal rounding of the return, of the win-rate and profit-factor quotients is not modelled (compared to 1e-18); a Decimal quotient is never the negative zero",
     "InstrumentIndex / AssetIndex = position in the engine's FnvIndexMaps = position in the summary's maps (C11); the harness looks tear sheets up by instrument name / ExchangeAsset key",
@@ -38,7 +44,8 @@ PREBUILD = [["python3", "tools/rust2lean.py", "--require", "metric"],
 def signature(ops, k, key, impl_line, spec_line):
     """violated clause + discriminating class of the input"""
     it, st = impl_line.split(), spec_line.split()
-    mode = ops[0].split()[-1] if ops else "?"
+    head = ops[0].split() if ops else []
+    mode = head[3] if len(head) > 3 else "?"   # `init n m mode` / `initb n m mode L<k> ..`
     if key == "ts" and len(it) == len(st) == 8:
         for name, pos in (("pnl", 3), ("win_rate", 5), ("profit_factor", 7)):
             if it[pos] != st[pos]:
